@@ -73,6 +73,16 @@ def build(flavour="plain", drivers=("drv_api", "drv_file")):
     os.makedirs(out, exist_ok=True)
     if os.path.realpath(REPO) != "/repo":
         open(os.path.join(out, ".mutant"), "w").close()
+    import fcntl
+    lock = open(os.path.join(out, ".lock"), "w")
+    fcntl.flock(lock, fcntl.LOCK_EX)   # two checks started together must not compile into the same directory at once
+    try:
+        return _build_locked(flavour, drivers, out)
+    finally:
+        fcntl.flock(lock, fcntl.LOCK_UN); lock.close()
+
+
+def _build_locked(flavour, drivers, out):
     fl = FLAVOURS[flavour]
     inc = ["-I" + os.path.join(REPO, "include"), "-I" + HARNESS]
     jobs = []
